@@ -256,10 +256,10 @@ def check_C05():
         src = json.loads(json.dumps(drows[k]["src"]))
         name = "Nt" + k
         src["name"] = name
-        vis = rng.choice(["pub", "pub(crate)", ""])
+        vis = rng.choice(["pub", "pub(crate)", "", "pub(super)", "pub(in crate)", "pub(self)"])
         text = render_src(src).replace("pub struct %s" % name, ("%s struct %s" % (vis, name)).strip())
         files2[k] = text
-        cfgs[name] = {"d": k, "type": name, "vis": vis, "new_unchecked": any(b["bk"] == "new_unchecked" for b in src["blocks"]),
+        cfgs[name] = {"d": k, "type": name, "vis": vis.replace(" ", ""), "new_unchecked": any(b["bk"] == "new_unchecked" for b in src["blocks"]),
                       "feature_new_unchecked": True}
     for ci, row in enumerate(rows):
         cfg = row["cfg"]
